@@ -32,7 +32,7 @@ var arpaRoots = []string{
 	"İn-addr.arpa", "İp6.arpa", "in-addr.arpa\x00", "in-addr.ARPA", "ıp6.arpa", "ip6.arpK", "in\raddr.arpa", "ip\x16.arpa", "in-addr\x0earpa", "IN\rADDR.ARPA", "ip6\x0earpa",
 }
 
-var v4PrefixLabels = []string{"0", "1", "9", "10", "99", "100", "255", "256", "00", "01", "000", "1a", "a", "", "-1", "+1", "0x1", "1e1", "é", "１", "0377", "25５", "host192", "1234", "x255", "::ffff:4", "0:0:0:0:0:ffff:4"}
+var v4PrefixLabels = []string{"0", "1", "9", "10", "99", "100", "255", "256", "00", "01", "000", "1a", "a", "", "-1", "+1", "0x1", "1e1", "é", "１", "0377", "25５", "host192", "1234", "x255", "::ffff:4", "0:0:0:0:0:ffff:4", "1_0", "2_5_5", "1__0", "/", ":"}
 
 var hexd = "0123456789abcdef"
 
@@ -45,7 +45,9 @@ func NibbleRun(n, start int) []string {
 	return out
 }
 
-var v6Distinguished = []string{"aa", "g", "", "A", "F", "10", "-", "é", "0x", "ff", "G", "\xff", "ａ", "0", "f"}
+// the bytes next to the three hex-digit ranges ('/' ':' '@' 'G' '`' 'g') are in: an arithmetic classifier that
+// is off by one takes exactly those
+var v6Distinguished = []string{"aa", "g", "", "A", "F", "10", "-", "é", "0x", "ff", "G", "\xff", "ａ", "0", "f", "@", "`", "/", ":", "\x10", "\x19", "1_", "_"}
 var junkPrefixes = []string{"", "x.", "aa.", "1.", "_srv.", "a.b.", "é.", "0.", "g.", "x..", ".", "-.", "\xff."}
 
 // NameFamilies returns the families of domain-name shaped strings: generic
